@@ -37,6 +37,12 @@ def cond_expr(s, k):
     return k * s if s <= 2.0 else 2.0 * k
 
 
+def rootsq(s, k):
+    """|s - 1.25| written as the root of a square, plus a fractional power of a square: both are only equal to the
+    unsigned base; the states lie on both sides of 1.25."""
+    return k * ((s - 1.25) ** 2) ** 0.5 + ((s - 2.5) ** 2) ** 0.25
+
+
 def mm(s, vmax, km):
     return vmax * s / (km + s)
 
